@@ -19,6 +19,7 @@ import (
 	"time"
 
 	"github.com/tmpim/casket"
+	"github.com/tmpim/casket/caskethttp/httpserver"
 	"verifharness/hx"
 	"verifharness/probe"
 )
@@ -69,7 +70,7 @@ func (w *world) config(gen int, kind string, ports []string) casket.Input {
 	os.WriteFile(filepath.Join(root, "f.txt"), []byte(content(gen)), 0o644)
 	var b strings.Builder
 	for i, p := range ports {
-		fmt.Fprintf(&b, "127.0.0.1:%d {\n\tbind 127.0.0.1\n\troot %s\n", w.port[p], root)
+		fmt.Fprintf(&b, "127.0.0.1:%d {\n\tbind 127.0.0.1\n\troot %s\n\tverifprobe\n", w.port[p], root)
 		if i == 0 {
 			if kind == "failstartup" {
 				fmt.Fprintf(&b, "\tverifgate %d failstartup\n", gen)
@@ -92,16 +93,24 @@ func (w *world) config(gen int, kind string, ports []string) casket.Input {
 }
 
 // request performs one GET on a fresh connection and records start and end.
-func (w *world) request(a string) {
+func (w *world) request(a string) { w.requestSlow(a, 0) }
+
+// requestSlow: the handler sleeps ms milliseconds before it answers, so that the request is
+// in flight on whichever instance accepted it while the reload goes on.
+func (w *world) requestSlow(a string, ms int) {
 	id := int(atomic.AddInt64(&w.nextID, 1))
 	w.emit(event{Ev: "reqStart", ID: id, A: a})
-	m, outcome, detail := w.get(a)
+	m, outcome, detail := w.get(a, ms)
 	w.emit(event{Ev: "reqEnd", ID: id, A: a, M: m, Outcome: outcome, Detail: detail})
 }
 
-func (w *world) get(a string) (int, string, string) {
+func (w *world) get(a string, ms int) (int, string, string) {
 	addr := "127.0.0.1:" + strconv.Itoa(w.port[a])
-	r, err := hx.OneShot(addr, "GET", "/f.txt", addr)
+	var hdr []string
+	if ms > 0 {
+		hdr = append(hdr, fmt.Sprintf("X-Probe: sleep:%d;next", ms))
+	}
+	r, err := hx.OneShot(addr, "GET", "/f.txt", addr, hdr...)
 	if err != nil {
 		return 0, "error", err.Error()
 	}
@@ -125,7 +134,12 @@ func (w *world) get(a string) (int, string, string) {
 var kinds = []string{"ok", "ok", "ok", "failparse", "failsetup", "failstartup", "faillisten"}
 
 // scenario runs one world: nReloads reloads under nClients free-running clients.
-func scenario(t *testing.T, rnd *rand.Rand, nReloads, nClients int, dropEvent bool) ([]event, []event, error) {
+func scenario(t *testing.T, rnd *rand.Rand, nReloads, nClients int, dropEvent bool, grace time.Duration) ([]event, []event, error) {
+	// the grace period of the servers created from now on (-grace flag; 0 = do not wait for
+	// in-flight requests, which must complete all the same)
+	oldGrace := httpserver.GracefulTimeout
+	httpserver.GracefulTimeout = grace
+	defer func() { httpserver.GracefulTimeout = oldGrace }()
 	w := &world{t: t, dir: t.TempDir(), port: map[string]int{"p1": hx.FreePort(), "p2": hx.FreePort()}, p2stable: true}
 	var err error
 	w.busy = hx.ListenFresh()
@@ -169,6 +183,8 @@ func scenario(t *testing.T, rnd *rand.Rand, nReloads, nClients int, dropEvent bo
 						w.request("p2")
 					}
 					w.p2lock.RUnlock()
+				} else if crnd.Intn(4) == 0 {
+					w.requestSlow("p1", 3+crnd.Intn(25))
 				} else {
 					w.request("p1")
 				}
@@ -264,7 +280,8 @@ func TestC07(t *testing.T) {
 	tw := hx.NewTrace(t, "reload.ndjson")
 	total := 0
 	for s := 0; s < nScen; s++ {
-		ev, bad, err := scenario(t, rnd, nReloads, nClients, hx.SelfTest() && s == 0)
+		grace := []time.Duration{5 * time.Second, 0, 30 * time.Millisecond}[s%3]
+		ev, bad, err := scenario(t, rnd, nReloads, nClients, hx.SelfTest() && s == 0, grace)
 		if err != nil {
 			res.Infra = err.Error()
 			break
@@ -293,7 +310,7 @@ func TestC07(t *testing.T) {
 			nt = key
 		}
 		res.Count(nt)
-		res.Sample(map[string]interface{}{"scenario": s, "reloads_ok": okN, "reloads_failed": errN, "requests": reqN, "first_events": ev[:min(len(ev), 12)]})
+		res.Sample(map[string]interface{}{"scenario": s, "grace": grace.String(), "reloads_ok": okN, "reloads_failed": errN, "requests": reqN, "first_events": ev[:min(len(ev), 12)]})
 		res.AddExtra(key, map[string]int{"reloads_ok": okN, "reloads_failed": errN, "requests": reqN})
 	}
 	tw.Close()
